@@ -20,6 +20,7 @@
 -/
 import TxVerif.Model.PQLayout
 import TxVerif.Model.PQAck
+import TxVerif.Model.PQWriter
 namespace TxVerif
 
 def parseSizes (s : String) : Option (List Nat) :=
@@ -42,6 +43,14 @@ def pqArgs (args : List String) : Option (Nat × List Nat × Nat) :=
       if P < 32 then none else pure (P, sz, i)
   | _ => none
 
+/-- `w<n>` = Write of n (zero) bytes, `n` = Next, `f` = Flush -/
+def parseWOps (s : String) : Option (List WOp) :=
+  (s.splitOn ",").mapM fun t =>
+    if t == "n" then some WOp.next
+    else if t == "f" then some WOp.flush
+    else if t.startsWith "w" then (t.drop 1).toString.toNat?.map fun k => WOp.write (List.replicate k 0)
+    else none
+
 /-- evaluate one queue-layout request; `none` = malformed request -/
 def evalPQ (cmd : String) (args : List String) : Option String :=
   match cmd with
@@ -52,6 +61,15 @@ def evalPQ (cmd : String) (args : List String) : Option String :=
       let (P, sz, id0) ← pqArgs args
       let evs := zeroEvents sz
       pure (if parseChain P (layout P id0 evs) evs.length == some evs then "ok" else "fail")
+  | "writerops" =>
+      -- `writerops <P> <bufferPages> <ops>`: the calls on the writer model (Model/PQWriter.lean) of a fresh
+      -- queue; result = what a reader that stops at the persisted tail sees + the tail position
+      match args with
+      | [p, pg, ops] => do
+          let P ← p.toNat?; let pages ← pg.toNat?; let ws ← parseWOps ops
+          if P < 64 then none else
+          pure (" ".intercalate (runWriter P pages 0 ws).dump)
+      | _ => none
   | "ackplan" =>
       match args with
       | [p, sizes, e] => do
